@@ -272,6 +272,8 @@ func tagged(gi int) (want, got string) {
 	return mine, s.Properties["t"].Title
 }
 
+var invalidSerial int64
+
 var stressWarm bool
 
 // refRun: the sequential reference answers are being computed (every call then brings its own options value)
@@ -300,11 +302,14 @@ func stressOps(shared *spec.Swagger, sharedCache spec.ResolutionCache) []func() 
 	return []func() (string, error){
 		noBaseOp("d1"), noBaseOp("d2"), noBaseOp("d3"),
 		func() (string, error) { // a location and a schema id that are no valid URIs (the library warns and repairs)
+			// (another invalid URI at every call: whatever the library remembers about them is written every time)
+			n := atomic.AddInt64(&invalidSerial, 1)
 			var s spec.Schema
-			_ = json.Unmarshal([]byte(`{"id":"http://[::1/x","type":"object","properties":{"a":{"$ref":"#/definitions/A"}},"definitions":{"A":{"title":"a"}}}`), &s)
-			err := spec.ExpandSchemaWithBasePath(&s, nil, &spec.ExpandOptions{RelativeBase: "%zz/doc.json", PathLoader: stressLoader})
+			_ = json.Unmarshal([]byte(fmt.Sprintf(`{"id":"http://[::1/x%d","type":"object","properties":{"a":{"$ref":"#/definitions/A"}},"definitions":{"A":{"title":"a"}}}`, n)), &s)
+			err := spec.ExpandSchemaWithBasePath(&s, nil, &spec.ExpandOptions{RelativeBase: fmt.Sprintf("%%zz/doc%d.json", n), PathLoader: stressLoader})
+			s.ID = ""
 			b, _ := json.Marshal(s)
-			return fmt.Sprintf("%s err=%v", b, err), nil
+			return fmt.Sprintf("%s err=%v", b, err != nil), nil
 		},
 		func() (string, error) { // a path item stored, in Go, under a key without the leading slash
 			p, _ := jsonpointer.New("/paths/owners")
